@@ -60,6 +60,7 @@ def main (args : List String) : IO UInt32 := do
   | ["init"] => loop stdin stdout Driver.InitDrv.handle; return 0
   | ["tag"] => loop stdin stdout Driver.TagDrv.handle; return 0
   | ["declaration"] => loop stdin stdout Driver.DeclarationDrv.handle; return 0
+  | ["unit"] => loop stdin stdout Driver.DeclarationDrv.handleUnit; return 0
   | ["body"] => loop stdin stdout Driver.BodyDrv.handle; return 0
   | ["compat"] => loop stdin stdout Driver.CompatDrv.handle; return 0
   | ["expr"] => loop stdin stdout Driver.ExprDrv.handle; return 0
